@@ -14,6 +14,16 @@ var Sig = strings.Repeat("0123456789abcdef", 4)
 // the given sizes (the last size is repeated while payload remains; sizes <= 0
 // are skipped), followed by the final zero-length chunk.
 func ChunkedEncode(payload []byte, sizes []int) []byte {
+	return ChunkedEncodeHex(payload, sizes, false)
+}
+
+// ChunkedEncodeHex is ChunkedEncode with the chunk sizes written in upper-case
+// hexadecimal digits if upper is set (both cases are hexadecimal numbers).
+func ChunkedEncodeHex(payload []byte, sizes []int, upper bool) []byte {
+	hexf := "%x"
+	if upper {
+		hexf = "%X"
+	}
 	var b bytes.Buffer
 	pos := 0
 	i := 0
@@ -33,7 +43,7 @@ func ChunkedEncode(payload []byte, sizes []int) []byte {
 		if n > len(payload)-pos {
 			n = len(payload) - pos
 		}
-		fmt.Fprintf(&b, "%x;chunk-signature=%s\r\n", n, Sig)
+		fmt.Fprintf(&b, hexf+";chunk-signature=%s\r\n", n, Sig)
 		b.Write(payload[pos : pos+n])
 		b.WriteString("\r\n")
 		pos += n
